@@ -1127,6 +1127,10 @@ class World(WorldBase):
         text, secs = lg["text"], lg["sections"]
         total = len(text)
         cuts = range(1, total + 1) if op["cuts"] == "all" else [c for c in op["cuts"] if 1 <= c <= total]
+        if op["cuts"] == "all" and total > 3000:
+            # a long log (sections of up to 40 rows): every byte of the first and the last 1000, every
+            # third byte in between - the whole sweep stays within a few seconds
+            cuts = sorted(set(range(1, 1001)) | set(range(1001, total - 1000, 3)) | set(range(total - 1000, total + 1)))
         cutpath = "cut_" + op["path"]
         nreq = 0
         for c in cuts:
